@@ -174,7 +174,12 @@ MCNext ==
        /\ \E d \in E, i \in 1 .. Len(DispVals), impl \in (E \ Used) :
              /\ nodes[d].k = "ds" /\ nodes[d].tab # 0 /\ impl # d /\ KindOf(impl) \in {"fnapp", "ds", "val", "opt"}
              /\ ~(\E t \in DOMAIN tabs : \E e \in 1 .. Len(tabs[t]) : tabs[t][e].n = impl)
-             /\ ~(\E e \in 1 .. Len(tabs[nodes[d].tab]) : tabs[nodes[d].tab][e].v = DispVals[i])
+             \* before the first call an alias is registered once; between calls a registered alias may be
+             \* registered again (the later registration wins)
+             /\ LET taken == \E e \in 1 .. Len(tabs[nodes[d].tab]) : tabs[nodes[d].tab][e].v = DispVals[i]
+                    lateRegs == {h \in 1 .. Len(hist) : hist[h].a = "Register"} IN
+                /\ (phase = "build" => ~taken)
+                /\ (phase = "calls" => Cardinality(lateRegs) < 2 /\ (taken => \A h \in lateRegs : hist[h].prev = 0))
              /\ Register(d, DispVals[i], impl)
     \/ Len(nodes) >= MinNodes /\ KindOf(Root) \in RootKinds /\ (RequireComplete => Complete) /\ cur = NoDict /\ want = "none"
           /\ \E o \in Dicts : Pick(o)
@@ -298,7 +303,7 @@ FK_Consts == {I(1), Lv(<<I(0), I(1)>>)}
 FK_Fns == {"g"}
 FK_Bodies == {"f", "none"}
 FK_Disp == <<I(1), Str("x")>>
-FK_Presets == {Dv([k \in {"A", "S"} |-> IF k = "A" THEN I(9) ELSE Dv([j \in {"X"} |-> I(8)])])}
+FK_Presets == {Dv([k \in {"A", "S"} |-> IF k = "A" THEN I(9) ELSE Dv([j \in {"X"} |-> I(8)])]), Dv([k \in {"A"} |-> I(4)])}
 FK_Cbs == {"cb"}
 FK_Effs == {<<>>, <<"e1">>}
 FK_Caches == {"mem", "none"}
@@ -347,6 +352,27 @@ FL_Leaves == <<[p |-> pA, vals |-> {I(0), I(1)}, extra |-> FALSE],
                [p |-> pSX, vals |-> {I(1), I(2)}, extra |-> FALSE],
                [p |-> pSY, vals |-> {I(0), I(3)}, extra |-> FALSE],
                [p |-> <<"Z">>, vals |-> {I(7), I(8)}, extra |-> TRUE]>>
+
+\* family "maps" (C05, C03): Map over one and two keys in both key orders, distinct iterables
+FM_Kinds == {"val", "opt", "fnapp", "map"}
+FM_Paths == {pA, pSX}
+FM_Consts == {Lv(<<I(0), I(1)>>), Lv(<<I(5), I(6), I(7)>>)}
+FM_Bodies == {"f"}
+FM_MapPaths == {pA, pSX, pB}
+FM_Leaves == <<[p |-> pA, vals |-> {I(3)}, extra |-> FALSE],
+               [p |-> pSX, vals |-> {I(4)}, extra |-> FALSE],
+               [p |-> pB, vals |-> {I(2)}, extra |-> FALSE]>>
+
+\* family "siblings" (C01, C08): derivatives of one dataset with different pre-set / default options
+FS_Kinds == {"opt", "fnapp", "ds", "dsof", "coll"}
+FS_Paths == {pA, pSX}
+FS_Bodies == {"f"}
+FS_Presets == {Dv([k \in {"A"} |-> I(9)]), Dv([k \in {"A"} |-> I(8)]),
+               Dv([k \in {"S"} |-> Dv([j \in {"X"} |-> I(7)])])}
+FS_Coll == {"list"}
+FS_Leaves == <<[p |-> pA, vals |-> {I(1)}, extra |-> FALSE],
+               [p |-> pSX, vals |-> {I(2)}, extra |-> FALSE],
+               [p |-> <<"Z">>, vals |-> {I(7)}, extra |-> TRUE]>>
 
 -----------------------------------------------------------------------------
 \* one self-contained CASE line per observation: the graph, the tables, the call and everything
